@@ -32,7 +32,7 @@ Classes == {"add_inf_inf", "add_inf_p", "add_p_inf", "add_p_p", "add_p_negp", "a
             "equal_true_diffrep", "equal_neg", "equal_same_y", "equal_inf_inf", "equal_p_inf", "yodd", "yeven", "inf_parity", "enc_inf", "chain_step",
             "split_extreme", "split_neg1", "split_neg2", "split_round_flip", "split_limb_carry", "split_edge",
             "mul_zero", "mul_inf", "mul_alias", "mul_edge_scalar", "mul_altrep", "glv_bound",
-            "tbl_huge", "tbl_odd", "tbl_row", "bm_single_byte", "bm_zero_nibble", "bm_edge", "bm_priv",
+            "tbl_huge", "tbl_odd", "tbl_row", "bm_single_byte", "bm_zero_nibble", "bm_edge", "bm_priv", "bm_priv_after_derive",
             "dec_ok_cmp", "dec_ok_unc", "dec_ok_inf", "dec_bad_len", "dec_bad_prefix", "dec_noncanon_x", "dec_noncanon_y",
             "dec_offcurve", "dec_nonresidue", "dec_hybrid", "dec_recv_uninit", "dec_recv_kept", "dec_fresh", "coords_ok", "coords_bad",
             "rec_ok_low", "rec_ok_high", "rec_overflow", "rec_bad_id", "rec_nonresidue",
@@ -167,7 +167,7 @@ Verdict(ev) ==
             \cup (IF EdgeScalar(s) THEN {"bm_edge"} ELSE {}) >>
     [] ev.ev = "bm.Priv" ->
          LET s == H(ev.s)  a == PMulG(s) IN
-         << ev.pub = EncUncompressedH(a) /\ ev.cmp = EncCompressedH(a), {"bm_priv"} >>
+         << ev.pub = EncUncompressedH(a) /\ ev.cmp = EncCompressedH(a), {"bm_priv"} \cup (IF Has(ev, "after_derive") THEN {"bm_priv_after_derive"} ELSE {}) >>
     (* ---------------- C06 ---------------- *)
     [] ev.ev = "s1.Decode" ->
          LET b == HexToBytes(ev["in"])
